@@ -422,6 +422,16 @@ fn cli_case(cmd: &Cmd, files: &[(String, Vec<u8>)]) -> Result<(), String> {
     }
     let out = proc::run(cmd, &sc.0);
     out.well_behaved().map_err(|e| format!("{} ({})", e, out.summary()))?;
+    // decrypting an EMPTY plaintext writes no byte: a sink that would reject writes is never asked, so success is
+    // truthful there (only the process contract above applies)
+    let empty_plain = files.iter().any(|(n, d)| n == "plain.bin" && d.is_empty());
+    let a0 = String::from_utf8_lossy(&cmd.args[0]).to_string();
+    let a1 = cmd.args.get(1).map(|a| String::from_utf8_lossy(a).to_string()).unwrap_or_default();
+    let is_decrypt = a0 == "decrypt" || (a0 == "password" && a1 == "decrypt");
+    let sink_fault = cmd.stdout_closed_pipe || cmd.stdout_file.as_deref() == Some("/dev/full") || cmd.args.iter().any(|a| a == b"/dev/full");
+    if empty_plain && is_decrypt && sink_fault {
+        return Ok(());
+    }
     if out.code != Some(1) {
         return Err(format!("I/O failure not surfaced: exit status {:?} ({})", out.code, out.summary()));
     }
